@@ -510,6 +510,24 @@ func c15Narrowing(c *Ctx) {
 							c.ok("narrowing-guard", name, inst.Pos(), "strconv bit size %d <= %d bits of the result", bs, 8*sizeof(rb))
 							continue
 						}
+						// the bit size read from the requested type, t.Bits(), and the conversion reached only for kinds
+						// of t that are no wider than the result
+						if bc, isCall := pcall.Call.Args[idx].(*ssa.Call); isCall && calleeFullName(bc) == "(reflect.Type).Bits" {
+							atom := "(reflect.Type).Kind(" + canon(callArgs(bc)[0]) + ")"
+							pbk := &predBuilder{}
+							ks := kindsWhere(pbk.pathCond(f.Blocks[0], inst.Block()), atom)
+							bitsOf := map[int64]int64{kInt8: 8, kInt16: 16, kInt32: 32, kInt64: 64, kUint8: 8, kUint16: 16, kUint32: 32, kUint64: 64, kFloat32: 32, kFloat64: 64, kComplex64: 64, kComplex128: 128}
+							okBits := len(ks) > 0 && len(ks) < len(allKinds)
+							for kk := range ks {
+								if b, known := bitsOf[kk]; !known || b > 8*sizeof(rb) {
+									okBits = false
+								}
+							}
+							if okBits {
+								c.ok("narrowing-guard", name, inst.Pos(), "strconv bit size is Bits() of the requested type, whose kind is %s here: no wider than the result", kindSetString(ks))
+								continue
+							}
+						}
 					}
 				}
 				// floating point: only strconv rounds a decimal correctly to the narrow type and knows its range (the
